@@ -272,6 +272,11 @@ type refDecision struct {
 	Why      string // what decided: win / hdr400 / method405 / none404 / nobackend503
 	Rewrite  string // none / exact / prefix / regexp
 	HostKind string
+	// HdrBoth: some entry whose header condition was evaluated carries a matcher with both
+	// values and regexp, and the request's value satisfies exactly one of the two in a way
+	// that decides the entry's header verdict ("all": under matchAllHeader, "any": without,
+	// "all+any", or "" when no such entry was consulted).
+	HdrBoth string
 }
 
 func stripPort(host string) string {
@@ -336,36 +341,59 @@ func refHeaderGet(q *gReq, key string) string {
 	return ""
 }
 
-func refOneHeader(h *gHeader, v string) bool {
+// refOneHeader: one header matcher against the request's value for its key.  A matcher
+// carries values, a regexp, or both.  Every configured condition of the matcher must hold
+// when the entry says matchAllHeader ("all" ranges over every configured condition); without
+// matchAllHeader any configured condition is enough.  For a matcher that carries only one of
+// the two, both readings coincide.
+func refOneHeader(h *gHeader, v string, all bool) bool {
+	inValues := false
 	for _, x := range h.Values {
 		if x == v {
-			return true
+			inValues = true
 		}
 	}
-	if h.Regexp != "" && regexp.MustCompile(h.Regexp).MatchString(v) {
-		return true
+	reOK := h.Regexp != "" && regexp.MustCompile(h.Regexp).MatchString(v)
+	if all {
+		return (len(h.Values) == 0 || inValues) && (h.Regexp == "" || reOK)
 	}
-	return false
+	return inValues || reOK
 }
 
-func refHeadersMatch(p *gPath, q *gReq) bool {
+func refHeadersMatchAs(p *gPath, q *gReq, swapBoth bool) bool {
 	if len(p.Headers) == 0 {
 		return true
 	}
+	one := func(h *gHeader) bool {
+		all := p.MatchAll
+		if swapBoth && len(h.Values) > 0 && h.Regexp != "" {
+			all = !all
+		}
+		return refOneHeader(h, refHeaderGet(q, h.Key), all)
+	}
 	if p.MatchAll {
 		for i := range p.Headers {
-			if !refOneHeader(&p.Headers[i], refHeaderGet(q, p.Headers[i].Key)) {
+			if !one(&p.Headers[i]) {
 				return false
 			}
 		}
 		return true
 	}
 	for i := range p.Headers {
-		if refOneHeader(&p.Headers[i], refHeaderGet(q, p.Headers[i].Key)) {
+		if one(&p.Headers[i]) {
 			return true
 		}
 	}
 	return false
+}
+
+func refHeadersMatch(p *gPath, q *gReq) bool { return refHeadersMatchAs(p, q, false) }
+
+// refHdrBothDecides: the entry's header verdict hinges on a both-carrying matcher of which
+// the request satisfies exactly one condition (the verdict flips if such matchers are read
+// the other way round).  Only used for coverage accounting, never for a verdict.
+func refHdrBothDecides(p *gPath, q *gReq) bool {
+	return refHeadersMatchAs(p, q, false) != refHeadersMatchAs(p, q, true)
 }
 
 func refMethodMatch(p *gPath, m string) bool {
@@ -382,7 +410,26 @@ func refMethodMatch(p *gPath, m string) bool {
 
 // refRoute is the C01 sentence, IP filters ignored.
 func refRoute(s *gSpec, q *gReq, missing map[string]bool) refDecision {
+	return refRouteAs(s, q, missing, false)
+}
+
+// refRouteAs with swapBoth=true routes as if matchers carrying both values and regexp were
+// read the other way round (any-of under matchAllHeader, all-of without).  That variant is
+// never an oracle: it only serves to label a disagreement that has already been found.
+func refRouteAs(s *gSpec, q *gReq, missing map[string]bool, swapBoth bool) refDecision {
 	hdrMis, methMis := false, false
+	bothAll, bothAny := false, false
+	hdrBoth := func() string {
+		switch {
+		case bothAll && bothAny:
+			return "all+any"
+		case bothAll:
+			return "all"
+		case bothAny:
+			return "any"
+		}
+		return ""
+	}
 	for ri := range s.Rules {
 		r := &s.Rules[ri]
 		ok, hk := refHostMatch(r, q.Host)
@@ -399,11 +446,18 @@ func refRoute(s *gSpec, q *gReq, missing map[string]bool) refDecision {
 				methMis = true
 				continue
 			}
-			if !refHeadersMatch(p, q) {
+			if refHdrBothDecides(p, q) {
+				if p.MatchAll {
+					bothAll = true
+				} else {
+					bothAny = true
+				}
+			}
+			if !refHeadersMatchAs(p, q, swapBoth) {
 				hdrMis = true
 				continue
 			}
-			d := refDecision{Rule: ri, PathIdx: pi, Why: "win", Rewrite: "none", HostKind: hk}
+			d := refDecision{Rule: ri, PathIdx: pi, Why: "win", Rewrite: "none", HostKind: hk, HdrBoth: hdrBoth()}
 			if missing[p.Backend] {
 				d.Out = gOut{Status: 503}
 				d.Why = "nobackend503"
@@ -434,7 +488,7 @@ func refRoute(s *gSpec, q *gReq, missing map[string]bool) refDecision {
 			return d
 		}
 	}
-	d := refDecision{Rule: -1, PathIdx: -1}
+	d := refDecision{Rule: -1, PathIdx: -1, HdrBoth: hdrBoth()}
 	switch {
 	case hdrMis:
 		d.Out, d.Why = gOut{Status: 400}, "hdr400"
@@ -496,10 +550,15 @@ func genHeader(rng *rand.Rand) gHeader {
 	if rng.Intn(4) == 0 {
 		h.Key = strings.ToLower(h.Key) // header names are case-insensitive
 	}
-	// a header matcher carries either values or a regexp (DESIGN: ambiguity avoided)
-	if rng.Intn(3) == 0 {
+	// a header matcher carries values, a regexp, or both (both: every configured condition
+	// must hold under matchAllHeader, any of them otherwise)
+	switch rng.Intn(4) {
+	case 0:
 		h.Regexp = pick(rng, genHdrRegexps)
-	} else {
+	case 1:
+		h.Regexp = pick(rng, genHdrRegexps)
+		h.Values = subset(rng, genHdrVals, 1)
+	default:
 		h.Values = subset(rng, genHdrVals, 1)
 	}
 	return h
@@ -579,44 +638,109 @@ func appendUniq(ss []string, s string) []string {
 	return append(ss, s)
 }
 
+// genHostMatcher gives the rule a random host condition (exact, regexp, both or none).
+func genHostMatcher(rng *rand.Rand, r *gRule) {
+	switch rng.Intn(6) {
+	case 0, 1:
+		r.Host = pick(rng, genHosts)
+	case 2:
+		r.HostRegexp = pick(rng, genHostRegexps)
+	case 3:
+		r.Host = pick(rng, genHosts)
+		r.HostRegexp = pick(rng, genHostRegexps)
+	}
+}
+
+// genRule: one rule; n numbers the backends over the whole spec.
+func genRule(rng *rand.Rand, o genOpts, n *int) gRule {
+	r := gRule{}
+	genHostMatcher(rng, &r)
+	np := 1 + rng.Intn(o.maxPaths)
+	for j := 0; j < np; j++ {
+		r.Paths = append(r.Paths, genPath(rng, o, n))
+	}
+	// shadowing / duplicate entries: repeat an entry with another backend
+	if rng.Intn(4) == 0 {
+		d := r.Paths[rng.Intn(len(r.Paths))]
+		d.Backend = fmt.Sprintf("be-%d", *n)
+		*n++
+		if rng.Intn(2) == 0 {
+			d.Headers = nil
+		}
+		r.Paths = append(r.Paths, d)
+	}
+	if o.ipf && rng.Intn(4) == 0 {
+		r.IPF = genIPF(rng)
+	}
+	return r
+}
+
 func genSpec(rng *rand.Rand, o genOpts) *gSpec {
 	s := &gSpec{}
 	n := 0
 	nr := 1 + rng.Intn(o.maxRules)
 	for i := 0; i < nr; i++ {
-		r := gRule{}
-		switch rng.Intn(6) {
-		case 0, 1:
-			r.Host = pick(rng, genHosts)
-		case 2:
-			r.HostRegexp = pick(rng, genHostRegexps)
-		case 3:
-			r.Host = pick(rng, genHosts)
-			r.HostRegexp = pick(rng, genHostRegexps)
-		}
-		np := 1 + rng.Intn(o.maxPaths)
-		for j := 0; j < np; j++ {
-			r.Paths = append(r.Paths, genPath(rng, o, &n))
-		}
-		// shadowing / duplicate entries: repeat an entry with another backend
-		if rng.Intn(4) == 0 {
-			d := r.Paths[rng.Intn(len(r.Paths))]
-			d.Backend = fmt.Sprintf("be-%d", n)
-			n++
-			if rng.Intn(2) == 0 {
-				d.Headers = nil
-			}
-			r.Paths = append(r.Paths, d)
-		}
-		if o.ipf && rng.Intn(4) == 0 {
-			r.IPF = genIPF(rng)
-		}
-		s.Rules = append(s.Rules, r)
+		s.Rules = append(s.Rules, genRule(rng, o, &n))
 	}
 	if o.ipf && rng.Intn(3) == 0 {
 		s.IPF = genIPF(rng)
 	}
 	return s
+}
+
+// Host conditions that all accept the host "a.com" (with or without a port).
+var genStackHostConds = []gRule{
+	{}, {Host: "a.com"}, {HostRegexp: `^a\.`}, {HostRegexp: `\.com$`}, {HostRegexp: `^(a|b)\.com$`}, {Host: "b.com", HostRegexp: `^a\.`},
+}
+
+// genStackedSpec: 2-3 rules whose host conditions ALL accept "a.com" (catch-all, exact,
+// regexps), so that a search for that host walks through several rules: an earlier rule may
+// carry its own IP filter and header-conditioned entries without owning the requested path,
+// a later rule owns it.
+func genStackedSpec(rng *rand.Rand, o genOpts) *gSpec {
+	s := &gSpec{}
+	n := 0
+	nr := 2 + rng.Intn(2)
+	for i := 0; i < nr; i++ {
+		r := genRule(rng, o, &n)
+		c := genStackHostConds[rng.Intn(len(genStackHostConds))]
+		r.Host, r.HostRegexp = c.Host, c.HostRegexp
+		if o.ipf && r.IPF == nil && rng.Intn(2) == 0 {
+			r.IPF = genIPF(rng)
+		}
+		s.Rules = append(s.Rules, r)
+	}
+	if o.ipf && rng.Intn(6) == 0 {
+		s.IPF = genIPF(rng)
+	}
+	return s
+}
+
+// muxCacheProbe tells, without touching recency or assuming the key representation, whether
+// the live route cache of m holds an entry under the key a request with this host, method
+// and path would look up, and what kind of entry it is ("route" or "code<status>").  Any
+// cached key whose printed form, braces and blanks removed, equals host+method+path counts.
+func muxCacheProbe(m *mux, q *gReq) (hit bool, kind string) {
+	mi := m.inst.Load().(*muxInstance)
+	if mi.cache == nil {
+		return false, ""
+	}
+	want := q.Host + q.Method + q.Path
+	norm := strings.NewReplacer("{", "", "}", "", " ", "", "\x00", "")
+	for _, ck := range mi.cache.Keys() {
+		if norm.Replace(fmt.Sprint(ck)) != want {
+			continue
+		}
+		if v, ok := mi.cache.Peek(ck); ok {
+			hit = true
+			if rt := v.(*route); rt.code != 0 {
+				kind = fmt.Sprintf("code%d", rt.code)
+			} else {
+				kind = "route"
+			}
+		}
+	}
+	return hit, kind
 }
 
 // genReq produces a request biased towards the spec's own vocabulary.
